@@ -188,6 +188,17 @@ def splice_fn(repo, rel, path, sections, opts, log, meta):
             if not (1 <= n <= len(heads)):
                 raise SpliceError("%s: loop %d not found (%d loops in body)" % (path, n, len(heads)))
             inserts.append((heads[n - 1], order, "\n" + text + "\n"))
+        elif kind == "loop_body_end":
+            if heads is None:
+                heads = rs.loop_heads(body_plain)
+            n = int(arg)
+            if not (1 <= n <= len(heads)):
+                raise SpliceError("%s: loop %d not found (%d loops in body)" % (path, n, len(heads)))
+            toks = rs.lex(body_plain)
+            k = next((i for i, t in enumerate(toks) if t.s >= heads[n - 1] and t.text == "{"), None)
+            if k is None:
+                raise SpliceError("%s: loop %d has no body block" % (path, n))
+            inserts.append((toks[rs.match_close(toks, k)].s, order, "\n" + text + "\n"))
         elif kind in ("before", "after"):
             occ = None
             m = re.match(r"^(.*)\s+#(\d+)$", arg)
@@ -413,7 +424,7 @@ def build(template_text, repo, units_dir=None):
                         sections.append(("ret", a2, None))
                     elif k2 == "span":
                         sections.append(("span", a2, None))
-                    elif k2 in ("spec", "attr", "sig", "wrap", "loop", "before", "after", "body_start", "body_end", "then_end", "else_end", "then_start", "else_start"):
+                    elif k2 in ("spec", "attr", "sig", "wrap", "loop", "loop_body_end", "before", "after", "body_start", "body_end", "then_end", "else_end", "then_start", "else_start"):
                         cur = (k2, a2, [])
                     else:
                         raise SpliceError("unknown directive: " + l2)
